@@ -67,7 +67,19 @@ ONLY_HEXDIG_RE = re.compile(("^" + HEXDIG + "+$").encode("latin-1"))
 ONLY_DIGIT_RE = re.compile(("^" + DIGIT + "+$").encode("latin-1"))
 HEADER_FIELD_RE = re.compile(
     (
-        "^(?P<name>" + TOKEN + "):" + OWS + "(?P<value>" + FIELD_VALUE + ")" + OWS + "$"
+        # (the look-behind keeps the trailing OWS from sharing white space with
+        # the leading one when the value is empty: without it a long run of
+        # white space that is not followed by the end of the line is matched
+        # in quadratic time)
+        "^(?P<name>"
+        + TOKEN
+        + "):"
+        + OWS
+        + "(?P<value>"
+        + FIELD_VALUE
+        + ")(?<![ \t])"
+        + OWS
+        + "$"
     ).encode("latin-1")
 )
 QUOTED_PAIR_RE = re.compile(QUOTED_PAIR)
